@@ -91,7 +91,12 @@ type pipe struct {
 	reads   int
 	// waiting is set while a reader is blocked on an empty pipe.
 	waiting bool
+	// failAt: the failAt-th Write (counted from 1; 0 = never) returns an
+	// error and the direction ends: the transport broke under the writer.
+	failAt int
 }
+
+var errTransportBroke = errors.New("write: connection reset by peer")
 
 func newPipe() *pipe {
 	p := &pipe{}
@@ -104,6 +109,12 @@ func (p *pipe) Write(b []byte) (int, error) {
 	defer p.mu.Unlock()
 	if p.closed {
 		return 0, errPipeClosed
+	}
+	if p.failAt > 0 && len(p.written)+1 == p.failAt {
+		p.written = append(p.written, nil)
+		p.closed = true
+		p.cond.Broadcast()
+		return 0, errTransportBroke
 	}
 	c := append([]byte{}, b...)
 	idx := len(p.written)
@@ -302,6 +313,9 @@ type hsOpts struct {
 	// reuseI: the initiator keeps the ConnData of an earlier handshake (a
 	// reconnect of the same client)
 	reuseI *mailbox.ConnData
+	// failWriteI / failWriteR: that Write (counted from 1) of the
+	// initiator / responder fails: the transport broke at that act.
+	failWriteI, failWriteR int
 }
 
 // runHandshake runs DoHandshake on both sides over a fresh duplex.
@@ -309,6 +323,7 @@ func runHandshake(ini, rsp party, o hsOpts) (ri, rr *partyResult, d *duplex, err
 	d = newDuplex()
 	d.i2r.edit, d.r2i.edit = o.editI2R, o.editR2I
 	d.r2i.maxRead, d.i2r.maxRead = o.maxReadI, o.maxReadR
+	d.i2r.failAt, d.r2i.failAt = o.failWriteI, o.failWriteR
 	ri, rr = &partyResult{}, &partyResult{}
 	ri.connData, rr.connData = ini.connData(ri), rsp.connData(rr)
 	if o.reuseI != nil {
